@@ -40,9 +40,9 @@ def signature_of(recipe, tr, clause, pos):
   return {'estimator': recipe['est'], 'event': e.get('ev')}
 
 
-def write_cfg(path, has_thr, nq, depth, maxobjs=3, maxh=2, fit_transform=True):
+def write_cfg(path, has_thr, nq, depth, maxobjs=3, maxh=2, fit_transform=True, crossval=False):
   with open(path, 'w') as f:
-    f.write('CONSTANTS Params = {1, 2, 3}\n Data = {1, 2}\n Dim <- DimOf\n Canon <- CanonOf\n HasFitTransform = %s\n Thresholds = {1, 2}\n ValSets = {1, 2}\n' % ('TRUE' if fit_transform else 'FALSE') +
+    f.write('CONSTANTS Params = {1, 2, 3}\n Data = {1, 2}\n Dim <- DimOf\n Canon <- CanonOf\n HasFitTransform = %s\n HasCrossVal = %s\n Thresholds = {1, 2}\n ValSets = {1, 2}\n' % ('TRUE' if fit_transform else 'FALSE', 'TRUE' if crossval else 'FALSE') +
             ' Strategies = {1, 2}\n Queries = {%s}\n HasThreshold = %s\n MaxObjs = %d\n MaxHandles = %d\n Depth = %d\n'
             % (', '.join(str(i) for i in range(1, nq + 1)), 'TRUE' if has_thr else 'FALSE', maxobjs, maxh, depth))
     f.write('SPECIFICATION Spec\nVIEW View\nCONSTRAINT BoundedDepth\n')
@@ -55,9 +55,9 @@ def write_cfg(path, has_thr, nq, depth, maxobjs=3, maxh=2, fit_transform=True):
     f.write('CHECK_DEADLOCK FALSE\n')
 
 
-def histories(ctx, has_thr, nq, num, depth, tag, fit_transform=True):
+def histories(ctx, has_thr, nq, num, depth, tag, fit_transform=True, crossval=False):
   cfg = os.path.join(ctx.work, 'SIM_%s.cfg' % tag)
-  write_cfg(cfg, has_thr, nq, depth, fit_transform=fit_transform)
+  write_cfg(cfg, has_thr, nq, depth, fit_transform=fit_transform, crossval=crossval)
   simdir = os.path.join(ctx.work, 'sim_' + tag)
   os.makedirs(simdir, exist_ok=True)
   ctx.model('MC_Lifecycle', cfg, workers=1, simulate='file=%s/h,num=%d' % (simdir, num), must_complete=False,
@@ -87,6 +87,8 @@ def directed_ops(name):
        ['Query', 1, 5], ['New', 2], ['Query', 4, 1], ['New', 3], ['Fit', 5, 1], ['Query', 5, 1], ['Query', 5, 2]]
   if hasattr(gen.CLS[name], 'fit_transform'):
     h += [['FitTransform', 5, 2], ['Query', 5, 1], ['FitTransform', 1, 1]]
+  if gen.KIND[name] in ('pairs', 'sup'):
+    h += [['CrossValidate', 1, 1], ['CrossValidate', 4, 2], ['Query', 1, 1]]
   if name in lifecycle.PAIR_CLASSIFIERS:
     h += [['SetThreshold', 1, 2], ['Query', 1, 6], ['Calibrate', 1, 1, 2], ['Query', 1, 8], ['Fit', 1, 2],
           ['Query', 1, 6], ['SetThreshold', 4, 1], ['Calibrate', 4, 1, 1]]
@@ -115,7 +117,7 @@ def run(ctx):
       cov[tag + ':' + k] = cov.get(tag + ':' + k, 0) + 1
   num = 40 if ctx.quick else 400
   depth = 14 if ctx.quick else 22
-  hs = {'thr': histories(ctx, True, 8, num, depth, 'thr', fit_transform=False),
+  hs = {'thr': histories(ctx, True, 8, num, depth, 'thr', fit_transform=False, crossval=True),
         'tuples': histories(ctx, False, 8, num, depth, 'tuples', fit_transform=False),
         'plain': histories(ctx, False, 5, num * 2, depth, 'plain', fit_transform=True)}
   rng = np.random.default_rng(ctx.seed + 17)
